@@ -192,4 +192,45 @@ theorem padData_mem {α : Type} (d : List α) (len maxLen inner : Nat) (pad x : 
 
 example : padData [1, 2, 3, 4] 2 2 2 0 = [1, 2, 3, 4] := by decide
 example : padData [1, 2] 1 3 2 9 = [1, 2, 9, 9, 9, 9] := by decide
+/-! ### the code's "nothing to pad" shortcut agrees with the general rule -/
+
+theorem maxList_le_of_all (l : List Nat) (L : Nat) (h : ∀ x ∈ l, x ≤ L) : maxList l ≤ L := by
+  induction l with
+  | nil => simp [maxList]
+  | cons x xs ih =>
+    simp only [maxList]
+    have := h x (by simp)
+    have := ih (fun y hy => h y (by simp [hy]))
+    omega
+
+/-- **the "nothing to pad" branch is the general rule**: when every example has the same length, the collated batch is the plain stack — each example's
+    values and validity, one after the other, with not a single element added (the code takes a shortcut here; the model does not, and they agree). -/
+theorem padMasked_equal_lengths (batch : List (MT S)) (pad : S) (L : Nat) (r : MT S)
+    (hL : ∀ x ∈ batch, x.tensor.shape.headD 0 = L) (h : padMasked batch pad = some r) :
+    r.tensor.data = (batch.map fun x => x.tensor.data).flatten ∧ r.mask.data = (batch.map fun x => x.mask.data).flatten := by
+  unfold padMasked at h
+  split at h
+  · exact absurd h (by simp)
+  · next x0 rest =>
+    split at h
+    · exact absurd h (by simp)
+    · next d trail hs =>
+      split at h
+      · simp only [Option.some.injEq] at h
+        subst h
+        have hmax : maxList ((x0 :: rest).map fun x => x.tensor.shape.headD 0) ≤ L :=
+          maxList_le_of_all _ L (by intro y hy; simp only [List.mem_map] at hy; obtain ⟨x, hx, rfl⟩ := hy; exact Nat.le_of_eq (hL x hx))
+        constructor
+        · simp only
+          congr 1
+          apply List.map_congr_left
+          intro x hx
+          exact padData_full _ _ _ _ _ (by rw [hL x hx]; exact hmax)
+        · simp only
+          congr 1
+          apply List.map_congr_left
+          intro x hx
+          exact padData_full _ _ _ _ _ (by rw [hL x hx]; exact hmax)
+      · exact absurd h (by simp)
+example : (padMasked [ex1, ex1] 0).map (·.tensor.data) = some [1, 2, 3, 4, 1, 2, 3, 4] := by decide
 end PoseVerif.Props.C20
